@@ -691,7 +691,7 @@ func (f *fam) scoping() {
 }
 
 // Families runs all systematic families.
-func (h *Harness) Families() {
+func (h *Harness) Families() []*report {
 	f := &fam{}
 	f.functions()
 	f.operators()
@@ -701,13 +701,26 @@ func (h *Harness) Families() {
 	f.loops()
 	f.calls()
 	f.scoping()
+	h.mu.Lock()
 	h.ctx.Extra["family_cases"] = len(f.cases)
-	batch := 3000
+	h.mu.Unlock()
+	batch := 1600
+	var bs batches
 	for i := 0; i < len(f.cases); i += batch {
 		j := i + batch
 		if j > len(f.cases) {
 			j = len(f.cases)
 		}
-		h.Judge(f.cases[i:j], "families")
+		bs.start(h, f.cases[i:j], "families")
 	}
+	reps := bs.wait()
+	// samples for the evidence file: the first judged-OK family cases
+	n := 0
+	for _, c := range f.cases {
+		if c.Verdict == "OK" && n < 6 && len(c.Src()) < 600 {
+			n++
+			h.ctx.Sample(map[string]interface{}{"family": c.Family, "feature": c.Feature, "files": c.Files, "data": c.Prog.Data, "catalogue": c.Msgs, "go": c.Go.Out, "js": c.JSObs.Out})
+		}
+	}
+	return reps
 }
